@@ -135,8 +135,42 @@ func genC05(e *emitter, tier string, seed int64) {
 		}
 		lexCase(e, src, "mutated-prog")
 	}
+	// 3b. generated trees (every expression and statement form) with one operand replaced by a text the
+	// constructor functions reject (malformed number, division by a zero literal, bad escape), bare or
+	// wrapped in parentheses, brackets or a call: a rejected operand travels up through every constructor
+	{
+		tgen := &tg{rng: rng}
+		bad := []string{"0x", "1e", "(0x)", "(1e)", "(c / 0)", "(c % 0.0)", "((0x))", "[0x]", "f(1e)", "{\"k\": 0x}", "\"\\q\"", "(\"\\q\")", "a[0x]", "a[1e:]", "-0x", "!(1e)"}
+		M := N / 4
+		for i := 0; i < M; i++ {
+			ss := []any{}
+			for k := 1 + rng.Intn(2); k > 0; k-- {
+				ss = append(ss, tgen.stmt(1+rng.Intn(3)))
+			}
+			src := printProg(rng, ss, "canon")
+			// replace one identifier or small number (a whole token) by a rejected operand
+			type occ struct{ at, n int }
+			occs := []occ{}
+			for _, w := range []string{"a", "b", "c", "x1", "_y", "abc", "k", "1", "2", "7"} {
+				pat := " " + w + " "
+				for from := 0; ; {
+					k := strings.Index(src[from:], pat)
+					if k < 0 {
+						break
+					}
+					occs = append(occs, occ{from + k + 1, len(w)})
+					from += k + 1
+				}
+			}
+			if len(occs) == 0 {
+				continue
+			}
+			o := occs[rng.Intn(len(occs))]
+			lexCase(e, src[:o.at]+bad[rng.Intn(len(bad))]+src[o.at+o.n:], "rejected-operand")
+		}
+	}
 	// 4. named hard cases: unterminated strings/escapes, malformed numbers, deep nesting
-	hard := []string{"a =\u00a01\n", "x\u3000= 1", "\u2028", "if\u0085x {}", "a = \"\u00a0\" \u00a0", "-0x", "for a in 1e {}", "x = [1e", "\"abc", "\"abc\\", "\"\\", "\"\\u", "\"\\U0011000", "'''abc", "`abc", "1.2.3", "0x", "1e", "1e+", "08", "0b1", "1_0",
+	hard := []string{"a = b / (c / 0)", "x = 10 % (0x)", "a / (1e)", "x = [1, (2 % 0)] + 1", "f(a = (1e))", "if (0x) {}", "for x in (1e) {}", "a[(0x)] = 1", "a =\u00a01\n", "x\u3000= 1", "\u2028", "if\u0085x {}", "a = \"\u00a0\" \u00a0", "-0x", "for a in 1e {}", "x = [1e", "\"abc", "\"abc\\", "\"\\", "\"\\u", "\"\\U0011000", "'''abc", "`abc", "1.2.3", "0x", "1e", "1e+", "08", "0b1", "1_0",
 		"a.b.c", "a..b", ".[0]", "a[", "a[1", "a[1:", "a[::", "f(", "f(1,", "f(,)", "{", "{\"a\"", "{\"a\":", "if", "if x", "if x {", "for", "for ;", "for ;;", "for x in", "elif x {}", "else {}",
 		"x = ", "= 1", "x == ", "1 +", "+", "!", "((((((", "))))", "[[[[", "]]]]", "{{{{", "}}}}", "\xff\xfe", "a\x00b", "\"\xff\"", "`\xff`", "'''\xff'''", "#", "# only comment", "\n\n\n", ";;;", "a;;b", "a\n;\nb",
 		strings.Repeat("(", 2000) + "1" + strings.Repeat(")", 2000), strings.Repeat("[", 2000) + strings.Repeat("]", 2000), strings.Repeat("-", 3000) + "1",
